@@ -370,6 +370,22 @@ def rand_pcase(rng, focus=(), npairs=None):
         p.combinatorial, base.demux = True, False
     if base.demux and base.discard_trimmed:
         base.discard_trimmed = False
+    if f("onesided", 0.12) and not p.pair_adapters and not p.combinatorial:
+        # adapters for one mate only + an untrimmed filter: the documented override to 'both'
+        if not p.adapters2:
+            flag, spec, seqs = S.adapter_spec_string(rng, allow_linked=False, idx=0)
+            p.adapters2 = ((upper_flag(flag), spec.replace("ad0=", "bd0=")),)
+            plant2.append(seqs)
+        if rng.random() < 0.6:
+            base.adapters, base.demux, base.revcomp = (), False, False
+        else:
+            p.adapters2 = ()
+        if base.adapters or p.adapters2:
+            if rng.random() < 0.5:
+                base.discard_untrimmed, base.untrimmed_output = True, False
+            else:
+                base.untrimmed_output, base.discard_untrimmed = True, False
+            base.discard_trimmed = False
     p.interleaved_in = rng.random() < 0.25
     p.interleaved_out = rng.random() < 0.2
     n = rng.choice([1, 3, 6, 10]) if npairs is None else npairs
@@ -381,6 +397,31 @@ def rand_pcase(rng, focus=(), npairs=None):
         # mates carry the same id (R2 may have a different comment)
         cname = name if rng.random() < 0.7 or " " not in name else name.split()[0] + " 2:N:0:ACGT"
         pairs.append(((name, a[1], a[2]), (cname, c[1], c[2])))
+    if (p.pair_adapters and rng.random() < 0.5) or ("crossranks" in focus and rng.random() < 0.3):
+        # several ranks of plain 3' adapters of different lengths, all planted in both mates (in random order): the ranks
+        # compete, and the best rank for R1 alone need not be the best rank for R2 alone
+        k = rng.choice([2, 2, 3])
+        a1 = [U.rand_seq(rng, rng.choice([5, 6, 8, 10, 12]), "ACGT") for _ in range(k)]
+        a2 = [U.rand_seq(rng, rng.choice([5, 6, 8, 10, 12]), "ACGT") for _ in range(k)]
+        base.adapters = tuple(("-a", "ad%d=%s" % (i, s)) for i, s in enumerate(a1))
+        p.adapters2 = tuple(("-A", "bd%d=%s" % (i, s)) for i, s in enumerate(a2))
+        p.pair_adapters, base.times, base.revcomp, p.combinatorial = True, 1, False, False
+        base.error_rate, base.overlap = rng.choice([None, 0.0, 0.2]), rng.choice([None, 3, 4])
+        if rng.random() < 0.7:
+            # nothing but the adapters touches the reads: the rank that trimmed each mate can be read off the output
+            base.cuts, base.qcut, base.nextseq, base.length, base.trim_n, base.poly_a, base.action = (), None, None, None, False, False, "trim"
+            p.cuts2, p.qcut2, p.length2 = (), None, None
+        new = []
+        for (n1, s1, q1), (n2, s2, q2) in pairs:
+            def stack(ads):
+                order = list(range(k))
+                rng.shuffle(order)
+                order = order[: rng.choice([1, 2, k])]
+                ins = U.rand_seq(rng, rng.choice([0, 4, 10]), "ACGT")
+                return ins + "".join(ads[j] if rng.random() < 0.8 else U.mutate(rng, ads[j], 1, "ACGT") for j in order)
+            t1, t2 = stack(a1), stack(a2)
+            new.append(((n1.split()[0], t1, None if q1 is None else "I" * len(t1)), (n2.split()[0], t2, None if q2 is None else "I" * len(t2))))
+        pairs = new
     return p, pairs
 
 
